@@ -89,6 +89,16 @@ def judge_all(prop, cfg, lines, impl, model, incidents):
             continue
         op = l.split(" ")
         h.update(l.encode())
+        rep_diff = None
+        if op[0] == "repeat" and len(op) > 2:
+            # `repeat <n> <probe>`: judged as the probe; runs that differ from the first are a finding of their own
+            op = op[2:]
+            a0 = impl[i] if impl[i] is not None else "missing"
+            if " !run-" in a0:
+                impl[i], rep_diff = a0.split(" !run-", 1)
+        if op[0] == "rmode":
+            ctx.reader_mode = op[1] if len(op) > 1 else "0"
+            continue
         if l.startswith(BUILD):
             nontrivial = True
         if skip:
@@ -102,6 +112,10 @@ def judge_all(prop, cfg, lines, impl, model, incidents):
         if i in inc:
             skip = True
         fs = spec["judge"](ctx, i, op, a, mi, ms, reason)
+        if rep_diff is not None:
+            fs.append(Finding("property", i, "the same probe, repeated on one thread, gives different answers (state builds up inside the library): run " + rep_diff[:300], expected=a[:300], observed=rep_diff[:300], name="history independence of " + op[0]))
+        if getattr(ctx, "reader_mode", "0") != "0":
+            ctx.count("lines_under_fragmenting_reader")
         if op[0] in spec["probes"]:
             evaluations += 1
             nt = nontrivial or (op[0] in ("dec", "decat", "decq", "deca", "decg") and len(op) > 1 and len(op[-1]) >= 16) or op[0] in ("fx", "sweep", "sdec", "senc", "serve", "cli", "cliswitch", "lsn", "tls", "tlsq", "tlsrude", "ctcp")
